@@ -130,6 +130,21 @@ func sampleAwkward(sum *Summary, c json.RawMessage, sc *sCase, rng *rand.Rand) {
 		if len(live) == 0 {
 			continue
 		}
+		// the sample is a window of a larger buffer (as when several samples are cut from one array): what lies behind
+		// it belongs to the caller, and no query may write there
+		gx, okx := guarded(x.Xs)
+		x.Xs = gx
+		okw := func() bool { return true }
+		if x.Weights != nil {
+			var gw []float64
+			gw, okw = guarded(x.Weights)
+			x.Weights = gw
+		}
+		defer func(ai int) {
+			if !okx() || !okw() {
+				sum.viol("argument-modified", c, "awkward map %d: Quantile changed the sample or the spare capacity behind it", ai)
+			}
+		}(ai)
 		type qr struct{ q, r float64 }
 		var results []qr
 		for _, qq := range so.Qs {
@@ -215,6 +230,42 @@ func sampleExtremes(sum *Summary, c json.RawMessage, sc *sCase) {
 	zero := false
 	for _, w := range sc.Init.Ws {
 		zero = zero || w == 0
+	}
+	// (3) positive weights of extreme dynamic range (the extremes carry weights far below one ulp of the total, the rest
+	// inexact tenths): q >= 1 is still the largest and q <= 0 the smallest value of positive weight, and agrees with Bounds
+	if n >= 2 {
+		x := &stats.Sample{Xs: make([]float64, n), Weights: make([]float64, n), Sorted: sc.Init.Sorted}
+		imin, imax := 0, 0
+		for i, v := range sc.Init.Xs {
+			x.Xs[i] = float64(v)
+			x.Weights[i] = 0.1 * float64(sc.Init.Ws[i]+1)
+			if v < sc.Init.Xs[imin] {
+				imin = i
+			}
+			if v >= sc.Init.Xs[imax] {
+				imax = i
+			}
+		}
+		lo, hi := x.Xs[imin], x.Xs[imax]
+		for i, v := range x.Xs {
+			if v == hi {
+				x.Weights[i] = 1e-18
+			} else if v == lo {
+				x.Weights[i] = 3e-19
+			}
+		}
+		sum.Checks++
+		bl, bh := x.Bounds()
+		for _, q := range []float64{1, 1.5, math.Inf(1)} {
+			if g := x.Quantile(q); g != hi || bh != hi {
+				sum.viol("Quantile-top", c, "weights %v on %v: Quantile(%v)=%v Bounds max=%v, want the largest value %v (its weight is positive)", x.Weights, x.Xs, q, g, bh, hi)
+			}
+		}
+		for _, q := range []float64{0, -0.5, math.Inf(-1)} {
+			if g := x.Quantile(q); g != lo || bl != lo {
+				sum.viol("Quantile-bottom", c, "weights %v on %v: Quantile(%v)=%v Bounds min=%v, want the smallest value %v (its weight is positive)", x.Weights, x.Xs, q, g, bl, lo)
+			}
+		}
 	}
 	if !zero {
 		return
